@@ -92,6 +92,9 @@ pub use transformation::{augment_grammar, left_factor};
 /// Module with utility functionalities
 ///
 pub mod utils;
+
+#[cfg(parol_verif)]
+pub mod verif;
 pub(crate) use utils::str_vec::StrVec;
 pub(crate) use utils::{generate_name, group_by};
 pub use utils::{generate_tree_layout, obtain_grammar_config, obtain_grammar_config_from_string};
